@@ -122,6 +122,57 @@ ASSUMPTIONS += [
     "attribute.py returning `<param>.members[..]` are searched, other "
     "modules are not)",
 ]
+# rules/c01_containers.py (R1.23, R1.24)
+EXPLANATION += (
+    "  R1.23 (rules/c01_containers.py) the `is_concrete` flag of abstract.Dict "
+    "/ abstract.List ('pyval is all the container holds', trusted by "
+    "compare.compatible_with, contains_slot, _compare_dict and the getitem "
+    "slots to answer definitely) may not lie: (a) every store to "
+    "`<x>.is_concrete` in the package outside __init__ / init_mixin lowers "
+    "it (`= False`, `&= E`, `= <same>.is_concrete and E`); `= True`, `|=`, "
+    "`or`, or a copy of another object's flag is a violation, any other "
+    "form an analysis error; (b) each method of a flag class of "
+    "abstract/_instances.py that reads `<param>.get_instance_type_parameter` "
+    "(today Dict.update) is evaluated from its AST (rules/_minieval, methods "
+    "of the class followed, inherited ones answered by the world model) for "
+    "the receiver's flag in {True with / without contents, False} x the "
+    "argument being a native container, a concrete instance of the class, a "
+    "NON-concrete instance of the class, a non-class instance of the builtin, "
+    "an instance of another class, a non-instance, and must end with "
+    "flag_after => flag_before and (argument native or concrete); so `&=`, "
+    "`and`, a guard clause, a helper method are the same, and dropping the "
+    "conjunction for any kind of argument is a violation.  R1.24 (same "
+    "module) constant_folding.build_folded_type is evaluated (its nested "
+    "helpers as closures over the call's parameters) on folded constants "
+    "produced by a model of the folder - lists of 3, MAX_VAR_SIZE-1, "
+    "MAX_VAR_SIZE, MAX_VAR_SIZE+6 elements whose odd type sits at the tail / "
+    "front / nowhere with primitive, tuple, list and dict elements, sets, "
+    "short and long dicts, nestings - in a world where ctx.convert.build_* / "
+    "constant_to_var / merge_instance_type_params record the types they are "
+    "given; the recorded type of the result must admit every element "
+    "typestruct of the constant at every level (46 constants).  Blind spots: "
+    "R1.23(b) finds merging methods by the get_instance_type_parameter read "
+    "of a parameter; contents copied another way (vm.byte_LIST_EXTEND's "
+    "pyval.extend, byte_DICT_UPDATE's set_str_item loop) are guarded there by "
+    "is_concrete_list / is_concrete_dict tests that are not inventoried; "
+    "whether pyval really mirrors the run-time contents after builtin "
+    "mutators that pytype does not intercept (dict.clear / popitem, list.pop "
+    "/ reverse / remove / sort) is NOT covered - it does not on today's "
+    "tree, see rules/pending_c01_stale_pyval.py; R1.24 judges the element "
+    "TYPE of the result only - that a truncated list still presents its "
+    "placeholder elements as indexable values is the subject of "
+    "rules/pending_c01_folded_prefix.py.")
+ASSUMPTIONS += [
+    "R1.23: an abstract value that is not a Dict/List has is_concrete False "
+    "(BaseValue.__init__, checked as a flag write); a native Python dict / "
+    "list handed to a merging method (kwargs) is fully known",
+    "R1.24: the model of the folder follows the typestruct format documented "
+    "at the top of constant_folding.py (elements of a LOAD_CONST tuple are "
+    "typestructs, of a list / set folded constants, of a map a dict of "
+    "folded constants); ctx.convert.build_list / build_tuple / "
+    "build_collection_of_type / build_content produce values whose type is "
+    "the union of what they are given",
+]
 
 VM = "pytype/vm.py"
 
